@@ -4,7 +4,27 @@
 use crate::util::*;
 use crate::p3::bounding_volume::Aabb;
 use crate::p3::partitioning::{Qbvh, QbvhUpdateWorkspace};
+use crate::p3::bounding_volume::SimdAabb;
+use crate::p3::math::SIMD_WIDTH;
+use crate::p3::partitioning::{SimdVisitStatus, SimdVisitorWithContext};
+use crate::p3::query::Ray;
+use crate::p3::query::visitors::{BoundingVolumeIntersectionsSimultaneousVisitor, BoundingVolumeIntersectionsVisitor, RayIntersectionsVisitor};
 use std::fmt::Write as _;
+
+/// box-overlap visitor for `traverse_depth_first_with_context`: the context handed down is the depth
+struct DepthCtxVisitor<'a> { bv: SimdAabb, out: &'a mut Vec<(u32, u32)> }
+impl<'a> SimdVisitorWithContext<u32, SimdAabb, u32> for DepthCtxVisitor<'a> {
+    fn visit(&mut self, bv: &SimdAabb, data: Option<[Option<&u32>; SIMD_WIDTH]>, ctx: u32) -> (SimdVisitStatus, [u32; SIMD_WIDTH]) {
+        use crate::p3::na::SimdBool as _;
+        let mask = bv.intersects(&self.bv);
+        if let Some(data) = data {
+            let bitmask = mask.bitmask();
+            for ii in 0..SIMD_WIDTH { if (bitmask & (1 << ii)) != 0 { if let Some(d) = data[ii] { self.out.push((*d, ctx)); } } }
+        }
+        (SimdVisitStatus::MaybeContinue(mask), [ctx + 1; SIMD_WIDTH])
+    }
+}
+
 use std::panic::{catch_unwind, AssertUnwindSafe};
 
 const MAXU: u32 = u32::MAX;
@@ -114,6 +134,48 @@ pub fn exec(func: &str, a: &mut Args) -> String {
     match func {
         // `hist`: model-compared; `histo`: same dump, oracle only (operations the model does not cover yet)
         "hist" | "histo" => replay(a, true).1,
+        // simultaneous traversal of two independent trees (model-compared: histories of I/R/F only; `bvtto`: oracle only)
+        "bvtt" | "bvtto" => {
+            let (q1, _, _) = replay_cur(a, false);
+            let (q2, _, _) = replay_cur(a, false);
+            let pose = if a.b() { Some(d3::iso(a)) } else { None };
+            match (q1, q2) {
+                (Some(q1), Some(q2)) => {
+                    let mut out: Vec<String> = Vec::new();
+                    let mut cb = |x: &u32, y: &u32| { out.push(format!("{}:{}", x, y)); true };
+                    let r = catch_unwind(AssertUnwindSafe(|| {
+                        match pose {
+                            Some(m) => { let mut v = BoundingVolumeIntersectionsSimultaneousVisitor::with_relative_pos(m, &mut cb); q1.traverse_bvtt(&q2, &mut v); }
+                            None => { let mut v = BoundingVolumeIntersectionsSimultaneousVisitor::new(&mut cb); q1.traverse_bvtt(&q2, &mut v); }
+                        }
+                    }));
+                    if r.is_err() { return "PANIC".into(); }
+                    format!("pairs {}", out.join(" "))
+                }
+                _ => "PANIC".into(),
+            }
+        }
+        // single-tree depth-first entry points on the final state (oracle only): box query through
+        // `traverse_depth_first` + BoundingVolumeIntersectionsVisitor, the same through `traverse_depth_first_with_context`
+        // (context = depth), and a ray through RayIntersectionsVisitor
+        "dfs" => {
+            let (q, _, _) = replay_cur(a, false);
+            let bx = rd_box(a);
+            let ray = Ray::new(d3::p(a), d3::v(a)); let max_toi = a.f();
+            match q {
+                None => "PANIC".into(),
+                Some(q) => {
+                    let mut o1: Vec<u32> = Vec::new();
+                    { let mut cb = |x: &u32| { o1.push(*x); true }; let mut v = BoundingVolumeIntersectionsVisitor::new(&bx, &mut cb); q.traverse_depth_first(&mut v); }
+                    let mut o2: Vec<(u32, u32)> = Vec::new();
+                    { let mut v = DepthCtxVisitor { bv: SimdAabb::splat(bx), out: &mut o2 }; q.traverse_depth_first_with_context(&mut v, 0u32); }
+                    let mut o3: Vec<u32> = Vec::new();
+                    { let mut cb = |x: &u32| { o3.push(*x); true }; let mut v = RayIntersectionsVisitor::new(&ray, max_toi, &mut cb); q.traverse_depth_first(&mut v); }
+                    let f = |v: &Vec<u32>| v.iter().map(|x| x.to_string()).collect::<Vec<_>>().join(",");
+                    format!("box {} ctx {} ray {}", f(&o1), o2.iter().map(|(x, d)| format!("{}@{}", x, d)).collect::<Vec<_>>().join(","), f(&o3))
+                }
+            }
+        }
         "query" => {
             let (q, _) = replay(a, false);
             let b = rd_box(a);
@@ -283,8 +345,80 @@ pub fn gen_history_for_queries(r: &mut Rng, thorough: bool, lat: bool, n: usize)
     v
 }
 
+/// a tree of about `n` live leaves: insertions of fresh ids with a few moves / removals and refits in between
+/// (`balanced`: through `clear_and_rebuild`, optionally followed by updates and a `rebalance`); always ends with a refit
+fn sized_history(r: &mut Rng, n: usize, lat: bool, balanced: bool) -> Hist {
+    let nids = n + 4;
+    let mut h = Hist::new(nids);
+    let fam = r.below(6);
+    let mut bx = |r: &mut Rng| { let f = if fam == 5 { r.below(5) } else { fam }; gen_box(r, f, lat) };
+    if balanced {
+        let items: Vec<(usize, Aabb)> = (0..n).map(|i| (i, bx(r))).collect();
+        let dil = *r.pick(&[0.0, 0.0, 0.01]);
+        h.rebuild(&items, dil);
+        let extra = r.below(6) as usize;
+        for _ in 0..extra { let id = r.below(nids as u64) as usize; let b = bx(r); h.ins(id, b); }
+        if r.bool() && n > 0 { h.rem(r.below(n as u64) as usize); }
+        let m = gen_margin(r, lat); h.refit(m);
+        if r.bool() { h.rebalance(m); h.refit(m); }
+    } else {
+        for i in 0..n {
+            let b = bx(r); h.ins(i, b);
+            if r.below(9) == 0 { let m = gen_margin(r, lat); h.refit(m); }
+            if r.below(11) == 0 && i > 0 { let id = r.below(i as u64) as usize; if h.live[id] { let b2 = moved(r, &h.boxes[id].clone(), lat); h.ins(id, b2); } }
+            if r.below(13) == 0 && i > 2 { h.rem(r.below(i as u64) as usize); }
+        }
+        let m = gen_margin(r, lat); h.refit(m);
+    }
+    h
+}
+
+/// two independent trees in all size orders (tiny, small/large, large/small, equal), with or without a relative pose
+fn gen_bvtt(r: &mut Rng, thorough: bool, it: usize) -> (String, String) {
+    let lat = it % 2 == 0;
+    let big = if thorough { 300 } else { 120 };
+    let (n1, n2) = match it % 6 {
+        0 => (1 + r.below(4) as usize, 1 + r.below(big as u64) as usize),            // tiny first tree
+        1 => (5 + r.below(20) as usize, 30 + r.below(big as u64 - 29) as usize),     // small / large
+        2 => (30 + r.below(big as u64 - 29) as usize, 5 + r.below(20) as usize),     // large / small
+        3 => { let n = 5 + r.below(big as u64 - 4) as usize; (n, n) }                 // equal
+        4 => (1 + r.below(big as u64) as usize, 1 + r.below(4) as usize),            // tiny second tree
+        _ => (1 + r.below(big as u64) as usize, 1 + r.below(big as u64) as usize),
+    };
+    let balanced = it % 3 == 2;
+    let b1 = balanced && r.bool();
+    let h1 = sized_history(r, n1, lat, b1);
+    let h2 = sized_history(r, n2, lat, balanced);
+    let pose = if r.below(3) == 0 { "0".to_string() } else {
+        // the second tree lives in its own frame: small offsets keep many pairs overlapping
+        let mut m = d3::gen_iso(r, lat, if lat { 1.0 } else { 5.0 });
+        if r.below(4) == 0 { m.rotation = d3::na::UnitQuaternion::identity(); }
+        format!("1 {}", d3::hiso(&m)) };
+    let modelled = !h1.ops.iter().chain(h2.ops.iter()).any(|o| o.starts_with('B') || o.starts_with('C'));
+    ((if modelled { "bvtt" } else { "bvtto" }).to_string(), format!("{} {} {}", h1.args(), h2.args(), pose))
+}
+
 pub fn gen(r: &mut Rng, thorough: bool) -> Vec<(String, String)> {
     let mut v = Vec::new();
+    let nb = if thorough { 240 } else { 60 };
+    for it in 0..nb { v.push(gen_bvtt(r, thorough, it)); }
+    // single-tree depth-first entry points with box / context / ray visitors
+    let nd = if thorough { 200 } else { 40 };
+    for it in 0..nd {
+        let lat = it % 2 == 0;
+        let n = 1 + r.below(if thorough { 200 } else { 80 }) as usize;
+        let h = sized_history(r, n, lat, it % 3 == 2);
+        let live: Vec<usize> = (0..h.live.len()).filter(|i| h.live[*i]).collect();
+        for _ in 0..3 {
+            let qb = if live.is_empty() || r.below(4) == 0 { gen_box(r, 0, lat) } else { let bb = h.boxes[*r.pick(&live)]; moved(r, &bb, lat) };
+            let tgt = if live.is_empty() { d3::gen_p(r, lat, 10.0) } else { let b = h.boxes[*r.pick(&live)]; d3::na::center(&b.mins, &b.maxs) };
+            let org = tgt + d3::gen_v(r, lat, 30.0);
+            let dir = if r.below(4) == 0 { let mut d = d3::Vector::zeros(); d[r.below(3) as usize] = if r.bool() { 1.0 } else { -2.0 }; d } else { (tgt - org) * *r.pick(&[0.5, 1.0, 2.0]) };
+            if dir.norm() < 1e-9 { continue; }
+            let max_toi = if r.below(4) == 0 { *r.pick(&[0.25, 0.5]) } else { 1.0e3 };
+            v.push(("dfs".to_string(), format!("{} {} {} {} {}", h.args(), hb(&qb), d3::hp(&org), d3::hv(&dir), hx(max_toi))));
+        }
+    }
     let (nrand, maxops) = if thorough { (600, 400) } else { (260, 40) };
     for it in 0..nrand { v.push(random_history(r, maxops, it % 2 == 0)); }
     let nstruct = if thorough { 40 } else { 6 };
